@@ -92,3 +92,12 @@ Print Assumptions C17_clean_idempotent.
 Theorem C17_clean_absolute : forall p, is_abs (clean p) = is_abs p.
 Proof. exact clean_is_abs. Qed.
 Print Assumptions C17_clean_absolute.
+
+(** With the single pattern "dir/*" ([dir] without pattern characters),
+    whatever is opened is [dir]/x with x free of separators. *)
+Theorem C17_dir_star_only : forall d loc p,
+  forallb is_lit d = true ->
+  reader [d ++ [sep; c_star]] loc = OpenFile p ->
+  exists x, p = d ++ sep :: x /\ mem sep x = false /\ p = clean loc.
+Proof. exact dir_star_only. Qed.
+Print Assumptions C17_dir_star_only.
